@@ -114,4 +114,42 @@ Proof.
   - exists line, pc. split; [exact Hs|]. split; [exact Hmax|]. split; [exact Hcl|]. exact Hstart.
 Qed.
 
+(* ... and when the two configurations have NO version in common, Start fails with the version error and kills the plugin
+   (which announced the lowest version it serves) *)
+Theorem launch_without_common_version c cert_env dir cmd_env host_env sc addr cert hc o :
+  ctl c -> cert_env <> [] ->
+  sv_key sc = e_cookie_key c -> sv_value sc = e_cookie_value c -> e_cookie_key c <> [] -> e_cookie_value c <> [] ->
+  e_versions c = mkeys (client_map (h_client hc)) ->
+  Forall in64 (mkeys (client_map (h_client hc))) -> Forall in64 (mkeys (server_map (sv_serve sc))) ->
+  mkeys (server_map (sv_serve sc)) <> [] ->
+  disjoint (mkeys (server_map (sv_serve sc))) (mkeys (client_map (h_client hc))) ->
+  no_bar addr = true -> no_nl addr = true -> no_bar cert = true -> forallb plain_byte cert = true ->
+  let penv := to_pairs (build_env gen_env_params c cert_env dir cmd_env host_env) in
+  exists line, serve gen_sv_params sc penv addr cert = [SvListen; SvPrint line; SvSwapStdio] /\
+    ((blen line < max_token)%N -> forall rest t, exists eff,
+       start_after_launch gen_hs_params hc o (line ++ 10%N :: rest) t = [(OErr EAppVersion, eff)] /\ has_kill eff = true).
+Proof.
+  intros Hctl Hce Hk Hv Hkn Hvn Hvers Hc64 Hs64 Hne Hdis Hab Han Hcb Hcp penv.
+  destruct (launched_plugin_sees c cert_env dir cmd_env host_env sc Hctl Hce Hk Hv Hkn Hvn) as (Hgate & Henv & _).
+  fold penv in Hgate, Henv.
+  destruct (server_pick (sv_serve sc) (getenv penv (bs "PLUGIN_PROTOCOL_VERSIONS"))) as [[v p] sset] eqn:ER.
+  (* the announced version is the least served one, which the client does not have *)
+  destruct (server_pick_highest_common (sv_serve sc) (mkeys (server_map (sv_serve sc))) (getenv penv (bs "PLUGIN_PROTOCOL_VERSIONS")) (Permutation_refl _)) as (_ & HB & _).
+  fold (server_pick (sv_serve sc) (getenv penv (bs "PLUGIN_PROTOCOL_VERSIONS"))) in HB. rewrite ER in HB. cbn [fst snd] in HB.
+  assert (Hparse : parse_versions (getenv penv (bs "PLUGIN_PROTOCOL_VERSIONS")) = mkeys (client_map (h_client hc))).
+  { rewrite Henv, Hvers. apply versions_roundtrip. exact Hc64. }
+  rewrite Hparse in HB. destruct (HB Hne Hdis) as ((Hin & _) & Hnot & _).
+  assert (Hv64 : in64 v) by (rewrite Forall_forall in Hs64; apply Hs64; exact Hin).
+  assert (Hnone : mget (client_map (h_client hc)) v = None).
+  { destruct (mget (client_map (h_client hc)) v) eqn:E; [|reflexivity]. exfalso. apply Hnot. apply mget_In_keys. congruence. }
+  destruct (version_mismatch_is_start_error gen_sv_params gen_hs_params eq_refl eq_refl Hcore64 ltac:(cbn; repeat constructor)
+              sc penv addr cert hc o v p sset Hgate ER Hv64 Hab Hcb Hcp Hnone) as (line & Hs & He & Hkill).
+  exists line. split; [exact Hs|]. intros Hlen rest t.
+  destruct (serve_line_scanned gen_sv_params gen_hs_params ltac:(cbn; repeat constructor) sc penv addr cert v p sset rest t Hgate ER Han Hcp) as (line' & Hs' & Hscan).
+  rewrite Hs in Hs'. inversion Hs'; subst line'. specialize (Hscan Hlen).
+  unfold start_after_launch. rewrite Hscan.
+  destruct (process_line gen_hs_params hc o line) as [oc eff]. cbn [fst snd] in *. subst oc.
+  exists eff. split; [reflexivity|exact Hkill].
+Qed.
+
 End Chain.
